@@ -15,7 +15,7 @@ def expectedChars (segs : List Seg) : List (Char × Obs) :=
 /-- A line of segments through `_render_buffer` and back through the decoder's loop. -/
 theorem segs_roundtrip (cfg : Cfg) (segs : List Seg) (hok : ∀ g ∈ segs, SegOk g) (st : Style) (hst : Blank st)
     (acc : List Char) (hacc : textOk acc = true) :
-    ∃ x st2 runs, encodeSegs segs = .ok x ∧ (∀ c ∈ x, c ≠ '\r') ∧ R cfg st x acc = (st2, .ok runs) ∧ Blank st2 ∧
+    ∃ x st2 runs, encodeSegs false segs = .ok x ∧ (∀ c ∈ x, c ≠ '\r') ∧ R cfg st x acc = (st2, .ok runs) ∧ Blank st2 ∧
       charsOf runs = acc.map (·, obs0) ++ expectedChars segs := by
   induction segs generalizing st acc with
   | nil =>
@@ -42,14 +42,19 @@ theorem codesLoop_total (cfg : Cfg) (h : cfg.intRaises = false) (l : List (List 
     simp only [codesLoop]
     split
     · split
-      · rename_i n _
-        exact ⟨min 255 n :: cs, by simp [hcs, Except.map]⟩
-      · simp [h, hcs]
-    · exact ⟨cs, hcs⟩
+      · exact ⟨cs, hcs⟩
+      · exact ⟨0 :: cs, by simp [hcs, Except.map]⟩
+    · split
+      · split
+        · rename_i n _
+          exact ⟨min 255 n :: cs, by simp [hcs, Except.map]⟩
+        · simp [h, hcs]
+      · exact ⟨cs, hcs⟩
 
-theorem sgrLookup_parse_ok (v : StyleVariant) {code : Nat} {d : List Char} (h : sgrLookup code = some d) :
+theorem sgrLookup_parse_ok (v : StyleVariant) {code : Nat} {d : List Char} (h : sgrLookup code = some d)
+    (hv : v = StyleVariant.fixed := by rfl) :
     ∃ s, Style.parse v d = .ok s := by
-  have ht := tablesOk_all v
+  have ht := tablesOk_all v hv
   simp only [tablesOk, entriesOk, Bool.and_eq_true, List.all_eq_true] at ht
   have hent := ht.1.1.1.2
   unfold sgrLookup at h
@@ -62,6 +67,32 @@ theorem sgrLookup_parse_ok (v : StyleVariant) {code : Nat} {d : List Char} (h : 
     cases hps : Style.parse v d with
     | ok s => exact ⟨s, rfl⟩
     | error e => simp [hps] at hp
+
+theorem sgrLookupV_parse_ok (cfg : Cfg) {code : Nat} {d : List Char} (h : sgrLookupV cfg code = some d) :
+    ∃ s, Style.parse cfg.sv d = .ok s := by
+  have lit : ∀ x ∈ [cl! "not underline", cl! "not underline not underline2", cl! "not blink",
+      cl! "not blink not blink2"], (Style.parse StyleVariant.fixed x).toOption.isSome = true := by decide +kernel
+  have lit' : ∀ x ∈ [cl! "not underline", cl! "not underline not underline2", cl! "not blink",
+      cl! "not blink not blink2"], ∃ s, Style.parse cfg.sv x = .ok s := by
+    intro x hx
+    have := lit x hx
+    cases hp : Style.parse StyleVariant.fixed x with
+    | ok s => exact ⟨s, rfl⟩
+    | error e => simp [hp, Except.toOption] at this
+  unfold sgrLookupV at h
+  split at h
+  · simp only [Option.some.injEq] at h
+    subst h
+    split
+    · exact lit' _ (by simp)
+    · exact lit' _ (by simp)
+  · split at h
+    · simp only [Option.some.injEq] at h
+      subst h
+      split
+      · exact lit' _ (by simp)
+      · exact lit' _ (by simp)
+    · exact sgrLookup_parse_ok cfg.sv h
 
 theorem applyCodes_noerr (cfg : Cfg) (codes : List Nat) (st : Style) (k : Nat) :
     (applyCodes cfg st codes k).2 = none := by
@@ -76,7 +107,7 @@ theorem applyCodes_noerr (cfg : Cfg) (codes : List Nat) (st : Style) (k : Nat) :
       · exact ih _ _
       · split
         · rename_i d hd
-          obtain ⟨s, hs⟩ := sgrLookup_parse_ok cfg.sv hd
+          obtain ⟨s, hs⟩ := sgrLookupV_parse_ok cfg hd
           simp only [hs]
           exact ih _ _
         · split
